@@ -133,7 +133,9 @@ fn fixture(dir: &str, list: &Option<String>) -> Fx {
     if let Some(l) = list {
         adm.call(&node.dbs, &format!("set-permissions u {}", l));
     }
-    for (k, v) in [("apple", "1"), ("buzz", "2"), ("xmidx", "3"), ("other", "4"), ("$$secret", "s"), ("n", "5")] {
+    // (two keys hold values no command line of the matrix contains: a text and a counter close to the limit - whatever a
+    // command answers to a session that may not read them, the answer must not spell them out)
+    for (k, v) in [("apple", "1"), ("buzz", "2"), ("xmidx", "3"), ("other", "4"), ("$$secret", "s"), ("n", "5"), ("anote", "t0p-s3cr3t-text"), ("acount", "2147400123")] {
         adm.call(&node.dbs, &format!("set {} {}", k, v));
     }
     // some keys have been written twice: their version is 1, so the `set-safe <key> 0 v` of the matrix is a stale write
@@ -185,6 +187,11 @@ pub fn commands() -> Vec<String> {
     let mut c: Vec<String> = vec![];
     for k in ["apple", "buzz", "xmidx", "other", "$$secret", "n", "$conflicts", "fresh"] {
         for f in ["get {}", "get-safe {}", "watch {}", "set {} v", "set-safe {} 99 v", "set-safe {} 0 v", "increment {}", "increment {} 2", "remove {}", "resolve 1 db {} 5 v", "resolve 1 other {} 5 v", "unwatch {}", "rp 1 get {}", "rp 1 set {} v"] {
+            c.push(f.replace("{}", k));
+        }
+    }
+    for k in ["anote", "acount"] {
+        for f in ["get {}", "increment {}", "increment {} 2147483647", "increment {} -2147483647", "set-safe {} 0 v", "set-safe {} x v", "increment {} x", "remove {} {}", "watch {}", "rp 1 increment {} 2147483647"] {
             c.push(f.replace("{}", k));
         }
     }
@@ -262,7 +269,7 @@ fn run_session(cred: &Cred, lines: &[(String, Option<Option<String>>)], secondar
         }
         let need = need_of(line);
         let expect = allowed(&cur_cred, &need);
-        if let (Need::Key(k, 'r'), Some(true), true) = (&need, expect, line.starts_with("watch ")) {
+        if let (Need::Key(k, 'r'), Some(true), true) = (&need, expect, line.starts_with("watch ") || line == "arbiter" || line.ends_with(" arbiter")) {
             subscribed.insert(k.clone());
         }
         let before = dump_all(&fx.node.dbs);
@@ -304,6 +311,17 @@ fn run_session(cred: &Cred, lines: &[(String, Option<Option<String>>)], secondar
         // pushed lines without the rp acknowledgement
         let pushed: Vec<String> = reply.pushed.iter().filter(|p| !(word == "rp" && p.starts_with("ack "))).cloned().collect();
         let mut problem: Option<&str> = None;
+        // whatever the command and its verdict (refused, failed, done): a user session that holds no read grant for a key
+        // is not told what the key holds - not in a value line, not in the text of an error, not in a notification it did
+        // not subscribe to while it could
+        if let Cred::User(list) = &cur_cred {
+            for (k, held) in [("anote", "t0p-s3cr3t-text"), ("acount", "2147400123")] {
+                let may_read = list.as_ref().map(|l| list_grants(l, k, 'r')).unwrap_or(false) || subscribed.contains(k);
+                if !may_read && (reply.resp.contains(held) || pushed.iter().any(|p| p.contains(held))) {
+                    problem = Some("answer-spells-out-a-value-the-session-may-not-read");
+                }
+            }
+        }
         // whatever the command and its verdict: a database this session never presented a credential for stays as it is
         let other_changed = !matches!(cur_cred, Cred::Admin | Cred::AdminDb) && crate::common::node::dump_db(&fx.node.dbs, "other") != other_before;
         match expect {
